@@ -515,7 +515,8 @@ def groupby_case(draw):
         ctxs.append(_prune(src))
     with_data = draw(st.booleans())
     return {"listed": [[list(p), k] for p, k in listed], "contexts": ctxs,
-            "with_data": with_data, "shuffle_keys": draw(st.booleans())}
+            "with_data": with_data, "shuffle_keys": draw(st.booleans()),
+            "key_order": draw(st.sampled_from(["listed", "reversed", "longest_first"]))}
 
 
 def _prune(d):
@@ -538,6 +539,13 @@ def judge_groupby(case):
     listed = [(tuple(p), k) for p, k in case["listed"]]
     group_by = tuple(".".join(p) for p, k in listed if k == "g")
     merge = tuple(".".join(p) for p, k in listed if k == "m")
+    # the order in which keys are listed must not matter (longer keys before their prefixes etc.)
+    order = case.get("key_order", "listed")
+    if order == "reversed":
+        group_by, merge = group_by[::-1], merge[::-1]
+    elif order == "longest_first":
+        group_by = tuple(sorted(group_by, key=lambda k_: (-len(k_), k_)))
+        merge = tuple(sorted(merge, key=lambda k_: (-len(k_), k_)))
     gb = GroupBy(group_by=group_by, merge=merge)
     vals = []
     for i, c in enumerate(case["contexts"]):
